@@ -95,6 +95,24 @@ def replay_static(case) -> dict:
                 ang = _angle(engine.api(Molecules.from_euler, pos, e2[None, :], seq=seq, order="zyx").rotator[0], R)
                 if ang > 1e-3:
                     fails.append(dict(desc, clause="EulerZyxOrder", seq=seq, angle_deg=round(ang, 4)))
+        # batches: row i of an (N, 3) angle array belongs to molecule i (both coordinate orders)
+        from scipy.spatial.transform import Rotation as _Rot
+
+        others = _Rot.from_quat([[1, 2, 0, 3], [0, 1, 3, 1]])
+        rot3 = _Rot.concatenate([R, others[0] * R, others[1]])
+        pos3 = np.array([[1.0, 2.0, 3.0], [4.0, 5.0, 6.0], [7.0, 8.0, 9.0]])
+        mol3 = Molecules(pos3, rot3)
+        for seq in ("ZXZ", "zyx", "XYZ"):
+            for deg in (False, True):
+                e3 = mol3.euler_angle(seq, degrees=deg)
+                back3 = engine.api(Molecules.from_euler, pos3, e3, seq=seq, degrees=deg)
+                worst = max(_angle(back3.rotator[i], rot3[i]) for i in range(3))
+                if worst > 1e-3 or not np.allclose(back3.pos, pos3):
+                    fails.append(dict(desc, clause="EulerBatchRowwise", seq=seq, degrees=deg, angle_deg=round(worst, 4)))
+            back3 = engine.api(Molecules.from_euler, pos3, rot3.as_euler(seq), seq=seq, order="zyx")
+            worst = max(_angle(back3.rotator[i], rot3[i]) for i in range(3))
+            if worst > 1e-3:
+                fails.append(dict(desc, clause="EulerBatchRowwise", seq=seq, order="zyx", angle_deg=round(worst, 4)))
     # local sampling coordinates and affine matrices
     shape = tuple(case["shape"])
     for scale in (1.0, 0.5, 2.0):
